@@ -262,7 +262,8 @@ func runC22(c *Ctx) {
 	if f := c.fn("timing-table", "mem/dram", "Builder", "generateTiming"); f != nil {
 		fd := p.Decl(f)
 		defs := map[string][]ast.Expr{}
-		table := map[string]map[string]ast.Expr{} // SameBank[k] -> next -> expr
+		// every assignment to SameBank[k] replaces the row: each one is a candidate final row
+		table := map[string][]map[string]ast.Expr{} // SameBank[k] -> assignments -> next -> expr
 		ast.Inspect(fd.Body, func(n ast.Node) bool {
 			as, ok := n.(*ast.AssignStmt)
 			if !ok || len(as.Lhs) != 1 || len(as.Rhs) != 1 {
@@ -270,6 +271,12 @@ func runC22(c *Ctx) {
 			}
 			if id, isID := as.Lhs[0].(*ast.Ident); isID {
 				defs[id.Name] = append(defs[id.Name], as.Rhs[0])
+			}
+			return true
+		})
+		ast.Inspect(fd.Body, func(n ast.Node) bool {
+			as, ok := n.(*ast.AssignStmt)
+			if !ok || len(as.Lhs) != 1 || len(as.Rhs) != 1 {
 				return true
 			}
 			ix, isIx := as.Lhs[0].(*ast.IndexExpr)
@@ -277,33 +284,34 @@ func runC22(c *Ctx) {
 				return true
 			}
 			k := types.ExprString(ix.Index)
-			cl, isCL := as.Rhs[0].(*ast.CompositeLit)
-			if !isCL {
-				return true
+			rhs := as.Rhs[0]
+			if id, isID := rhs.(*ast.Ident); isID && len(defs[id.Name]) == 1 {
+				rhs = defs[id.Name][0] // a row built in a local first
 			}
-			if table[k] == nil {
-				table[k] = map[string]ast.Expr{}
-			}
-			for _, el := range cl.Elts {
-				ecl, isE := el.(*ast.CompositeLit)
-				if !isE {
-					continue
-				}
-				next, val := "", ast.Expr(nil)
-				for _, kv := range ecl.Elts {
-					if kve, isKV := kv.(*ast.KeyValueExpr); isKV {
-						switch types.ExprString(kve.Key) {
-						case "NextCmdKind":
-							next = types.ExprString(kve.Value)
-						case "MinCycleInBetween":
-							val = kve.Value
+			row := map[string]ast.Expr{}
+			if cl, isCL := rhs.(*ast.CompositeLit); isCL {
+				for _, el := range cl.Elts {
+					ecl, isE := el.(*ast.CompositeLit)
+					if !isE {
+						continue
+					}
+					next, val := "", ast.Expr(nil)
+					for _, kv := range ecl.Elts {
+						if kve, isKV := kv.(*ast.KeyValueExpr); isKV {
+							switch types.ExprString(kve.Key) {
+							case "NextCmdKind":
+								next = types.ExprString(kve.Value)
+							case "MinCycleInBetween":
+								val = kve.Value
+							}
 						}
 					}
-				}
-				if next != "" {
-					table[k][next] = val
+					if next != "" {
+						row[next] = val
+					}
 				}
 			}
+			table[k] = append(table[k], row)
 			return true
 		})
 		var params func(e ast.Expr, depth int, out map[string]bool)
@@ -344,17 +352,22 @@ func runC22(c *Ctx) {
 			{"cmdKindWritePrecharge", "cmdKindActivate", []string{"TWR", "TRP"}, "write-with-autoprecharge to activate"},
 		}
 		for _, nd := range need {
-			val, has := table[nd.from][nd.to]
-			got := map[string]bool{}
-			params(val, 0, got)
-			ok := has
-			for _, s := range nd.spec {
-				if !got[s] {
+			ok := len(table[nd.from]) > 0
+			for _, row := range table[nd.from] {
+				val, has := row[nd.to]
+				got := map[string]bool{}
+				params(val, 0, got)
+				if !has {
 					ok = false
 				}
+				for _, s := range nd.spec {
+					if !got[s] {
+						ok = false
+					}
+				}
 			}
-			c.Check(ok, "timing-table", "SameBank["+nd.from+"]→"+nd.to, fd.Pos(), "derived from "+strings.Join(nd.spec, ", "),
-				"the same-bank timing table has no "+nd.why+" entry derived from "+strings.Join(nd.spec, "+")+": that minimum separation is not enforced")
+			c.Check(ok, "timing-table", "SameBank["+nd.from+"]→"+nd.to, fd.Pos(), "derived from "+strings.Join(nd.spec, ", ")+" in every assignment of the row",
+				"the same-bank timing row of "+nd.from+" has (on some configuration path: each assignment replaces the row) no "+nd.why+" entry derived from "+strings.Join(nd.spec, "+")+": that minimum separation is not enforced")
 		}
 	}
 	// countdown discipline
